@@ -21,6 +21,7 @@ import (
 	"os"
 	"sort"
 	"strings"
+	"sync"
 	"time"
 
 	"istio.io/istio/pilot/pkg/model"
@@ -117,6 +118,15 @@ func (e *envoy) ztUnsubscribe(names []string) {
 	if len(del) > 0 && e.st != nil {
 		e.st.sendDelta("WDS", nil, del, "", nil)
 	}
+}
+
+func all(ds []diff, f func(diff) bool) bool {
+	for _, d := range ds {
+		if !f(d) {
+			return false
+		}
+	}
+	return true
 }
 
 func contains(xs []string, x string) bool {
@@ -447,7 +457,11 @@ func ztCompare(st *site, stt *stats, wc, od *envoy, tag string) ([]diff, bool) {
 		}
 		for _, n := range sortedKeys(need["WDS"]) {
 			if _, ok := a["WDS"][n]; !ok {
-				out = append(out, diff{"ondemand:WDS", n, "missing", aliasOnly(st, od, n, "missing")})
+				hint := aliasOnly(st, od, n, "missing")
+				if hint == "" {
+					hint = memberOnly(st, od, n)
+				}
+				out = append(out, diff{"ondemand:WDS", n, "missing", hint})
 			}
 		}
 	}
@@ -455,6 +469,72 @@ func ztCompare(st *site, stt *stats, wc, od *envoy, tag string) ([]diff, bool) {
 }
 
 const aliasHint = "alias-key-not-tracked:"
+
+// memberHint marks the second known class of the on-demand client (same root cause: pushes match
+// subscriptions by resource name only): the client subscribed to a SERVICE (by namespace/hostname or
+// by VIP) and was answered with the service and its workloads of that moment; a workload that
+// becomes a member of the service later (selector or label change, pod created) is never pushed to
+// it - the service resource itself does not change and the new member's name is not subscribed.
+const memberHint = "service-member-not-tracked:"
+
+// ztEverHeld: the WDS resource names the long-lived on-demand client of a c03 case has held at some
+// comparison point (a member it once had and lost is NOT the known class).
+var (
+	ztEverMu   sync.Mutex
+	ztEverHeld = map[*envoy]map[string]bool{}
+)
+
+func ztNoteHeld(od *envoy) {
+	snap := od.snapshot()
+	ztEverMu.Lock()
+	defer ztEverMu.Unlock()
+	m := ztEverHeld[od]
+	if m == nil {
+		m = map[string]bool{}
+		ztEverHeld[od] = m
+	}
+	for n := range snap["WDS"] {
+		m[n] = true
+	}
+}
+
+// memberOnly: the missing resource is a workload that the client's subscription reaches ONLY through
+// service names (asked of the REAL ambient index), and the client never held it.
+func memberOnly(st *site, od *envoy, resource string) string {
+	ztEverMu.Lock()
+	had := ztEverHeld[od][resource]
+	ztEverMu.Unlock()
+	if had {
+		return ""
+	}
+	od.mu.Lock()
+	want := append([]string(nil), od.want...)
+	od.mu.Unlock()
+	var via []string
+	for _, w := range want {
+		addrs, _ := st.s.Discovery.Env.AmbientIndexes.AddressInformation(sets.New(w))
+		reaches, service := false, false
+		for _, a := range addrs {
+			if a.ResourceName() == resource && a.GetWorkload() != nil {
+				reaches = true
+			}
+			if a.GetService() != nil {
+				service = true
+			}
+		}
+		if !reaches {
+			continue
+		}
+		if !service {
+			return "" // reached through a workload key: not this class
+		}
+		via = append(via, w)
+	}
+	if len(via) == 0 {
+		return ""
+	}
+	return memberHint + strings.Join(via, ",")
+}
 
 // aliasOnly classifies a difference on the long-lived on-demand client. Pushes match subscriptions
 // by RESOURCE NAME only (AddressesUpdated ∩ ResourceNames); a subscription by alias key (network/ip
@@ -551,17 +631,24 @@ func runC03Zt(h *History, stt *stats) result {
 			return &result{Clause: "harness-client-error", Detail: map[string]any{"after_step": step, "errors": errs}}
 		}
 		if len(d) > 0 {
-			clause := "delta-ne-fresh:ondemand:alias-key-created-after-subscribe"
-			for _, x := range d {
-				if !strings.HasPrefix(x.Hint, aliasHint) {
-					clause = "delta-ne-fresh"
-				}
+			// a known class only if EVERY difference carries the same cause
+			clause := "delta-ne-fresh"
+			if all(d, func(x diff) bool { return strings.HasPrefix(x.Hint, aliasHint) }) {
+				clause = "delta-ne-fresh:ondemand:alias-key-created-after-subscribe"
+			} else if all(d, func(x diff) bool { return strings.HasPrefix(x.Hint, memberHint) }) {
+				clause = "delta-ne-fresh:ondemand:service-member-added-after-subscribe"
 			}
 			return &result{Clause: clause, Detail: merge(map[string]any{"after_step": step, "n": len(d), "diff": limitDiffs(d, 8),
 				"a": "long-lived ztunnel client", "b": "fresh ztunnel client", "want": strings.Join(od.want, ",")}, clientInfo(wc, od))}
 		}
+		ztNoteHeld(od)
 		return nil
 	}
+	defer func() {
+		ztEverMu.Lock()
+		delete(ztEverHeld, od)
+		ztEverMu.Unlock()
+	}()
 	if r := check(0); r != nil {
 		return *r
 	}
